@@ -47,6 +47,26 @@ class Axis:
             a = _clip(sl.start, n, 0)
             b = _clip(sl.stop, n, n)
             self.drop = False
+        elif isinstance(sl, (int, SInt)) and not isinstance(sl, bool):
+            # integer selection (IntDimIndexer): one chunk, the axis is dropped from the result
+            i = sl
+            if interp.truth(i < 0):
+                i = i + n
+            if interp.truth(wrap(z3.Or(tz(i) < 0, tz(i) >= tz(n)))):
+                raise PyExc(IndexError, ("index out of bounds for dimension",))
+            self.drop = True
+            self.a, self.b = i, i + 1
+            if not isinstance(grid_or_c, (int, SInt)):
+                raise Unsupported("zarr indexer contract: explicit (rectilinear) chunk sizes")
+            self.c = grid_or_c
+            self.grid = None
+            self.empty = False
+            q = ctx.fresh_int("iq", lo=0)
+            ctx.assume_def(z3.Implies(z3.And(tz(self.c) >= 1, tz(i) >= 0), z3.And(q.t * tz(self.c) <= tz(i), tz(i) < (q.t + 1) * tz(self.c))))
+            ctx.register_quotient(q, i, self.c)
+            self.first = self.last = q
+            self.m = 1
+            return
         else:
             raise Unsupported(f"zarr indexer contract: selection item {type(sl).__name__}")
         if interp.truth(b < a):
@@ -77,6 +97,9 @@ class Axis:
     def proj(self, interp, j):
         """(chunk coord q, chunk_selection slice, out_selection slice, complete?) for the j-th intersected chunk"""
         a, b, c, n = self.a, self.b, self.c, self.n
+        if self.drop:
+            q = self.first
+            return q, a - q * c, None
         q = self.first + j
         at_first = interp.truth(j == 0)
         at_last = interp.truth(j == self.m - 1)
@@ -110,7 +133,7 @@ class SymIndexer(SymSeq):
             self.axes = [Axis(interp, sl, n, c) for sl, n, c in zip(selection, shape, chunks)]
             self._proj = {}
             cache[sig] = (self.axes, self._proj, (selection, shape, chunks))  # keeps the key terms alive
-        self.shape = tuple(ax.b - ax.a for ax in self.axes)
+        self.shape = tuple(ax.b - ax.a for ax in self.axes if not ax.drop)
         self.interp = interp
 
     def length(self):
@@ -140,7 +163,8 @@ class SymIndexer(SymSeq):
             q, cs, os_ = ax.proj(interp, j)
             coords.append(q)
             csel.append(cs)
-            osel.append(os_)
+            if os_ is not None:
+                osel.append(os_)
         return ChunkProjection(tuple(coords), tuple(csel), tuple(osel), False)
 
     def _pyvc_getattr(self, interp, name):
@@ -185,6 +209,19 @@ def unzip(interp, seq):
     for i in range(arity):
         cols.append(MapSeq(seq, (lambda e, i=i: e[i])))
     return tuple(cols)
+
+
+def _src_index(loc, ssel, dsel):
+    """index into the source block for destination position `loc`: slices advance with the destination axes, integer
+    selections (dropped axes) are fixed"""
+    out, k = [], 0
+    for s_ in ssel:
+        if isinstance(s_, slice):
+            out.append(s_.start + (loc[k] - dsel[k].start))
+            k += 1
+        else:
+            out.append(s_)
+    return tuple(out)
 
 
 class ScatterLoop:
@@ -234,7 +271,7 @@ class ScatterLoop:
                 ctx.assume(z3.And(*[tb((l >= d.start) & (l < d.stop)) for l, d in zip(loc, dsel)]) if shape else True)
                 if ctx.feasible() and getattr(blk, "origin", None) is not None and after.origin is not None:
                     got = after.origin(loc)
-                    want = blk.origin(tuple(s.start + (l - d.start) for l, s, d in zip(loc, ssel, dsel)))
+                    want = blk.origin(_src_index(loc, ssel, dsel))
                     ok = got[0] == want[0] and len(got[1]) == len(want[1])
                     ctx.oblige(f"loop[{self.name}]:body-is-the-scatter-assignment", z3.And(*[tz(x) == tz(y) for x, y in zip(got[1], want[1])]) if ok and got[1] else ok, kind="invariant")
             finally:
@@ -250,6 +287,6 @@ class ScatterLoop:
             ctx.assume(z3.And(*[tb((l >= d.start) & (l < d.stop)) for l, d in zip(loc, dsel)]) if loc else True)
             if getattr(blk, "origin", None) is None:
                 return ("<computed>", ())
-            return blk.origin(tuple(s.start + (l - d.start) for l, s, d in zip(loc, ssel, dsel)))
+            return blk.origin(_src_index(loc, ssel, dsel))
 
         fr.locals[self.out_var] = SymBlock(shape, out0.dtype, origin, "assembled", view_of=out0)  # the same buffer, filled
